@@ -1,4 +1,6 @@
 import Jose.Lemmas.Entity
+import Jose.Props.C01
+import Jose.Jwe
 /-
   C16 — serialization shape stays well-formed across any history of additions.
   Statements about `Entity.addEntity` (add_entity in lib/openssl/misc.c) and
@@ -8,7 +10,7 @@ set_option linter.unusedSimpArgs false
 set_option linter.unusedVariables false
 
 namespace Jose.Props.C16
-open Jose Jose.Entity Jose.Json
+open Jose Jose.Entity Jose.Json Jose.Jws Jose.Jwe Jose.Props.C01
 
 /-- the entry a flattened object shows for an added object: its listed members -/
 def flatEntries (keys : List String) (okvs : List (String × Json)) : List Json :=
@@ -248,6 +250,270 @@ theorem protected_stable (kvs : List (String × Json)) :
         simp [hp] at h; subst h
         simp [encodeProtected, lookup_setKV_same, B64.enc]
       | _ => simp [hp] at h
+
+/-! ### earlier entries remain valid / usable
+
+  `history` says every entry keeps its listed members and its position through any number of later
+  additions.  What follows ties that to verification and unwrapping: both look at an entry through
+  its listed members only (and, for a JWE, at the protected and shared unprotected headers, which
+  additions do not touch), so whatever verified or unwrapped before still does afterwards. -/
+
+theorem topMembers_keys (keys : List String) (kvs : List (String × Json)) :
+    ∀ p ∈ topMembers keys kvs, p.1 ∈ keys := by
+  intro p hp
+  simp only [topMembers, List.mem_filterMap] at hp
+  obtain ⟨k, hk, hv⟩ := hp
+  cases hl : lookup k kvs with
+  | none => simp [hl] at hv
+  | some v => simp [hl] at hv; subst hv; exact hk
+
+theorem topMembers_cons (k : String) (ks : List String) (kvs : List (String × Json)) :
+    topMembers (k :: ks) kvs = (match lookup k kvs with | some v => [(k, v)] | none => []) ++ topMembers ks kvs := by
+  simp only [topMembers, List.filterMap_cons]
+  cases lookup k kvs <;> simp
+
+/-- equal views mean equal listed members -/
+theorem lookup_of_topMembers_eq (keys : List String) (hnd : keys.Nodup) (kvs kvs' : List (String × Json))
+    (h : topMembers keys kvs = topMembers keys kvs') : ∀ k ∈ keys, lookup k kvs = lookup k kvs' := by
+  induction keys with
+  | nil => intro k hk; simp at hk
+  | cons k0 ks ih =>
+    rw [topMembers_cons, topMembers_cons] at h
+    have hk0 : k0 ∉ ks := (List.nodup_cons.mp hnd).1
+    have hnd' := (List.nodup_cons.mp hnd).2
+    have nohead : ∀ (v : Json) (l : List (String × Json)) (kv : List (String × Json)), (k0, v) :: l = topMembers ks kv → False := by
+      intro v l kv he
+      have := topMembers_keys ks kv (k0, v) (by rw [← he]; simp)
+      exact hk0 this
+    cases h1 : lookup k0 kvs with
+    | none =>
+      cases h2 : lookup k0 kvs' with
+      | none =>
+        simp only [h1, h2, List.nil_append] at h
+        intro k hk
+        rcases List.mem_cons.mp hk with rfl | hk
+        · rw [h1, h2]
+        · exact ih hnd' h k hk
+      | some v2 =>
+        simp only [h1, h2, List.nil_append, List.singleton_append] at h
+        exact absurd (nohead v2 _ kvs h.symm) id
+    | some v1 =>
+      cases h2 : lookup k0 kvs' with
+      | none =>
+        simp only [h1, h2, List.nil_append, List.singleton_append] at h
+        exact absurd (nohead v1 _ kvs' h) id
+      | some v2 =>
+        simp only [h1, h2, List.singleton_append, List.cons.injEq, Prod.mk.injEq, true_and] at h
+        intro k hk
+        rcases List.mem_cons.mp hk with rfl | hk
+        · rw [h1, h2, h.1]
+        · exact ih hnd' h.2 k hk
+
+/-- the verdict on one signature object depends on its three listed members only -/
+theorem verOne_members (P : Prims) (kvs kvs' : List (String × Json)) (jwk : Json)
+    (h : ∀ k ∈ SIGKEYS, lookup k kvs = lookup k kvs') :
+    verOne P (.obj kvs) jwk = verOne P (.obj kvs') jwk := by
+  have hs : lookup "signature" kvs = lookup "signature" kvs' := h _ (by simp [SIGKEYS])
+  have hp : lookup "protected" kvs = lookup "protected" kvs' := h _ (by simp [SIGKEYS])
+  have hh : lookup "header" kvs = lookup "header" kvs' := h _ (by simp [SIGKEYS])
+  have hhdr : jwsHdr (.obj kvs) = jwsHdr (.obj kvs') := by
+    simp only [jwsHdr, protectedObj, get?, hp, hh]
+  have hpre : prefixOf (.obj kvs) = prefixOf (.obj kvs') := by simp only [prefixOf, hp]
+  have hsb : sigBytes (.obj kvs) = sigBytes (.obj kvs') := by simp only [sigBytes, get?, hs]
+  have hleaf : ∀ name, verLeaf P name (.obj kvs) jwk = verLeaf P name (.obj kvs') jwk := by
+    intro name
+    simp only [verLeaf, hmacVer, ecdsaVer, rsaVer, hsb]
+  simp only [verOne, hhdr, hpre, hleaf, Json.isObject]; rfl
+
+/-- **C16 (earlier entries stay valid).**  Two signature objects showing the same listed members
+    (`view`) get the same verdict from every key over every payload.  Together with `history`
+    (every entry keeps its view through any number of later additions, in order) this is:
+    a signature that verified when it was added verifies after every later addition. -/
+theorem verdict_of_view (P : Prims) (e e' jwk : Json) (pay : Bs)
+    (hv : view SIGKEYS e = view SIGKEYS e') (ho : e.isObject = true) (ho' : e'.isObject = true) :
+    pairOk P e jwk pay = pairOk P e' jwk pay := by
+  cases e with
+  | obj kvs =>
+    cases e' with
+    | obj kvs' =>
+      simp only [view] at hv
+      injection hv with hv
+      have hl := lookup_of_topMembers_eq SIGKEYS (by decide) kvs kvs' hv
+      simp only [pairOk, verOne_members P kvs kvs' jwk hl]
+    | _ => simp [Json.isObject] at ho'
+  | _ => simp [Json.isObject] at ho
+
+/-- **C16 (every signature added earlier remains valid after every later addition).**  Start from a
+    JWS in a legal form holding the signature objects `es`; perform any sequence `os` of additions
+    as signing makes them.  Then the object is again in exactly one legal form, holds as many entries
+    as were there plus those added, in order, and the entry at every position gets, from every key
+    and over every payload, the verdict the object originally at that position gets. -/
+theorem earlier_signatures_survive (P : Prims) (os : List (List (String × Json)))
+    (hn : ∀ o ∈ os, Normal "signatures" SIGKEYS o) (root : Json) (es : List Json)
+    (hes : entriesOf "signatures" SIGKEYS root = some es) :
+    ∃ root' es', addAll "signatures" SIGKEYS root os = some root' ∧
+      entriesOf "signatures" SIGKEYS root' = some es' ∧
+      es'.length = es.length + os.length ∧
+      ∀ (i : Nat) (e e' : Json), es'[i]? = some e' → (es ++ os.map Json.obj)[i]? = some e → e.isObject = true →
+        ∀ jwk pay, pairOk P e' jwk pay = pairOk P e jwk pay := by
+  obtain ⟨root', es', h1, h2, h3⟩ := history "signatures" SIGKEYS (by decide) (by decide) os hn root es hes
+  refine ⟨root', es', h1, h2, ?_, ?_⟩
+  · have := congrArg List.length h3
+    simpa using this
+  · intro i e e' he' he ho jwk pay
+    have hv : (es'.map (view SIGKEYS))[i]? = ((es ++ os.map Json.obj).map (view SIGKEYS))[i]? := by rw [h3]
+    simp only [List.getElem?_map, he', he, Option.map_some, Option.some.injEq] at hv
+    have ho' : e'.isObject = true := by
+      cases e with
+      | obj kvs =>
+        cases e' with
+        | obj kvs' => rfl
+        | _ => simp [view] at hv
+      | _ => simp [Json.isObject] at ho
+    exact verdict_of_view P e' e jwk pay hv ho' ho
+
+/-- unwrapping looks at the JWE only through the merged header and at the recipient object only
+    through its `encrypted_key` (and, via the merged header, its `header`) -/
+theorem unw_congr (P : Prims) (jwe jwe' rcp rcp' : Json)
+    (hr1 : rcp.get? "encrypted_key" = rcp'.get? "encrypted_key")
+    (hr2 : jweHdr jwe (some rcp) = jweHdr jwe' (some rcp')) :
+    ∀ fuel name jwk cek rnd, unw P fuel name jwe rcp jwk cek rnd = unw P fuel name jwe' rcp' jwk cek rnd := by
+  intro fuel
+  induction fuel with
+  | zero => intros; rfl
+  | succ n ih =>
+    intro name jwk cek rnd
+    simp only [unw, hr1, hr2, ih]
+
+theorem jweHdr_members (a b : Json) (r r' : Option Json) (hp : a.get? "protected" = b.get? "protected")
+    (hu : a.get? "unprotected" = b.get? "unprotected") (hh : r.bind (·.get? "header") = r'.bind (·.get? "header")) :
+    jweHdr a r = jweHdr b r' := by
+  simp only [jweHdr, protectedObj, hp, hu, hh]
+
+/-- **C16 (earlier recipients stay usable).**  Whether, and to which CEK, a key unwraps a recipient
+    depends on the recipient object's two listed members and on the JWE's protected and shared
+    unprotected headers only — not on where in the object the recipient sits, nor on how many
+    recipients were added after it. -/
+theorem recipient_usable_of_view (P : Prims) (jwe jwe' rcp rcp' jwk : Json) (rnd : Bs)
+    (hv : view RCPKEYS rcp = view RCPKEYS rcp') (ho : rcp.isObject = true) (ho' : rcp'.isObject = true)
+    (hp : jwe.get? "protected" = jwe'.get? "protected") (hu : jwe.get? "unprotected" = jwe'.get? "unprotected") :
+    decJwkOne P jwe rcp jwk rnd = decJwkOne P jwe' rcp' jwk rnd := by
+  cases rcp with
+  | obj kvs =>
+    cases rcp' with
+    | obj kvs' =>
+      simp only [view] at hv
+      injection hv with hv
+      have hl := lookup_of_topMembers_eq RCPKEYS (by decide) kvs kvs' hv
+      have hh : lookup "header" kvs = lookup "header" kvs' := hl _ (by simp [RCPKEYS])
+      have he : lookup "encrypted_key" kvs = lookup "encrypted_key" kvs' := hl _ (by simp [RCPKEYS])
+      have hhdr : jweHdr jwe (some (.obj kvs)) = jweHdr jwe' (some (.obj kvs')) :=
+        jweHdr_members jwe jwe' _ _ hp hu (by simp [get?, hh])
+      have hu' := unw_congr P jwe jwe' (.obj kvs) (.obj kvs') (by simp [get?, he]) hhdr
+      simp only [decJwkOne, hhdr, hu']
+    | _ => simp [Json.isObject] at ho'
+  | _ => simp [Json.isObject] at ho
+
+/-- **C16 (frame).**  Adding an entry that carries only listed members leaves every other top-level
+    member of the object (payload, protected and unprotected headers of a JWE, iv, ciphertext, tag, aad,
+    anything the caller put there) exactly as it was. -/
+theorem addEntity_frame (plural : String) (keys : List String) (root root' : Json) (okvs : List (String × Json))
+    (hnd : (okvs.map Prod.fst).Nodup) (honly : ∀ k, k ∉ keys → lookup k okvs = none)
+    (k : String) (hk : k ∉ keys) (hkp : k ≠ plural)
+    (h : addEntity root (some (.obj okvs)) plural keys = some root') : root'.get? k = root.get? k := by
+  cases root with
+  | obj kvs =>
+    simp only [addEntity] at h
+    have hko : lookup k okvs = none := honly k hk
+    -- the state after looking at the list
+    have key : ∀ (kvs1 : List (String × Json)) (pl : Option (List Json)), lookup k kvs1 = lookup k kvs →
+        (let present := keys.filter (fun k => (lookup k kvs1).isSome)
+         let r :=
+          if present.isEmpty then (kvs1, pl)
+          else
+            let moved : List (String × Json) := present.filterMap (fun k => (lookup k kvs1).map (fun v => (k, v)))
+            let base := match pl with | some l => l | none => []
+            let kvsA := match pl with | some _ => kvs1 | none => setKV plural (.arr []) kvs1
+            (delAll present kvsA, some (base ++ [.obj moved]))
+         (match r.2 with
+          | some l => some (Json.obj (setKV plural (.arr (l ++ [Json.obj okvs])) r.1))
+          | none => some (Json.obj (updateKV r.1 okvs))) = some root') → root'.get? k = lookup k kvs := by
+      intro kvs1 pl hk1 hh
+      simp only at hh
+      have hnp : k ∉ keys.filter (fun k => (lookup k kvs1).isSome) := fun hm => hk (List.mem_filter.mp hm).1
+      by_cases hemp : (keys.filter (fun k => (lookup k kvs1).isSome)).isEmpty = true
+      · simp only [hemp, if_true] at hh
+        cases pl with
+        | some l =>
+          simp only [Option.some.injEq] at hh; subst hh
+          simp [get?, lookup_setKV_other plural k _ _ hkp, hk1]
+        | none =>
+          simp only [Option.some.injEq] at hh; subst hh
+          simp [get?, lookup_updateKV kvs1 okvs k hnd, hko, hk1]
+      · simp only [hemp, Bool.false_eq_true, if_false, Option.some.injEq] at hh
+        subst hh
+        cases pl with
+        | some l => simp [get?, lookup_setKV_other plural k _ _ hkp, lookup_delAll_not_mem _ _ k hnp, hk1]
+        | none => simp [get?, lookup_setKV_other plural k _ _ hkp, lookup_delAll_not_mem _ _ k hnp, hk1]
+    cases hpl : lookup plural kvs with
+    | none => simp only [hpl] at h; exact key kvs none rfl h
+    | some pv =>
+      cases pv with
+      | arr l =>
+        cases l with
+        | nil => simp only [hpl] at h; exact key (delKV plural kvs) none (lookup_delKV_other plural k kvs hkp) h
+        | cons e l => simp only [hpl] at h; exact key kvs (some (e :: l)) rfl h
+      | _ => simp [hpl] at h
+  | _ => simp [addEntity] at h
+
+/-- an addition that carries listed members only (what signing and wrapping append) -/
+def OnlyListed (keys : List String) (o : List (String × Json)) : Prop := ∀ k, k ∉ keys → lookup k o = none
+
+theorem addAll_frame (plural : String) (keys : List String) (os : List (List (String × Json)))
+    (hn : ∀ o ∈ os, Normal plural keys o ∧ OnlyListed keys o) (k : String) (hk : k ∉ keys) (hkp : k ≠ plural) :
+    ∀ root root', addAll plural keys root os = some root' → root'.get? k = root.get? k := by
+  induction os with
+  | nil => intro root root' h; simp only [addAll, Option.some.injEq] at h; subst h; rfl
+  | cons o r ih =>
+    intro root root' h
+    simp only [addAll] at h
+    cases h1 : addEntity root (some (.obj o)) plural keys with
+    | none => simp [h1] at h
+    | some root1 =>
+      simp only [h1] at h
+      obtain ⟨⟨hnd, _, _⟩, honly⟩ := hn o (by simp)
+      rw [ih (fun o' ho' => hn o' (by simp [ho'])) root1 root' h]
+      exact addEntity_frame plural keys root root1 o hnd honly k hk hkp h1
+
+/-- **C16 (every recipient added earlier remains usable after every later addition).**  As
+    `earlier_signatures_survive`, for the recipients of a JWE: after any sequence of additions the
+    recipient at every position unwraps, for every key, exactly as the object originally at that
+    position did in the JWE before the additions (same CEK or same refusal). -/
+theorem earlier_recipients_survive (P : Prims) (os : List (List (String × Json)))
+    (hn : ∀ o ∈ os, Normal "recipients" RCPKEYS o ∧ OnlyListed RCPKEYS o) (root : Json) (es : List Json)
+    (hes : entriesOf "recipients" RCPKEYS root = some es) :
+    ∃ root' es', addAll "recipients" RCPKEYS root os = some root' ∧
+      entriesOf "recipients" RCPKEYS root' = some es' ∧
+      es'.length = es.length + os.length ∧
+      ∀ (i : Nat) (e e' : Json), es'[i]? = some e' → (es ++ os.map Json.obj)[i]? = some e → e.isObject = true →
+        ∀ jwk rnd, decJwkOne P root' e' jwk rnd = decJwkOne P root e jwk rnd := by
+  obtain ⟨root', es', h1, h2, h3⟩ := history "recipients" RCPKEYS (by decide) (by decide) os (fun o ho => (hn o ho).1) root es hes
+  refine ⟨root', es', h1, h2, ?_, ?_⟩
+  · have := congrArg List.length h3
+    simpa using this
+  · intro i e e' he' he ho jwk rnd
+    have hv : (es'.map (view RCPKEYS))[i]? = ((es ++ os.map Json.obj).map (view RCPKEYS))[i]? := by rw [h3]
+    simp only [List.getElem?_map, he', he, Option.map_some, Option.some.injEq] at hv
+    have ho' : e'.isObject = true := by
+      cases e with
+      | obj kvs =>
+        cases e' with
+        | obj kvs' => rfl
+        | _ => simp [view] at hv
+      | _ => simp [Json.isObject] at ho
+    have hp := addAll_frame "recipients" RCPKEYS os hn "protected" (by decide) (by decide) root root' h1
+    have hu := addAll_frame "recipients" RCPKEYS os hn "unprotected" (by decide) (by decide) root root' h1
+    exact recipient_usable_of_view P root' root e' e jwk rnd hv ho' ho hp hu
 
 /-- non-vacuity: three signatures added to an empty JWS (second one with an encoded protected header) -/
 example :
